@@ -24,6 +24,7 @@ def rx_prefix_bytes(a):
 
 class C06(PropBase):
     id = 'C06'
+    partial_passes = 0.25
     lean_modules = ['Isotp.Props.C06']
     theorems = []
     rule = ('(a) clean stream of 2..6 frames x anomaly kind (11 kinds: wrong SN, unexpected CF, unexpected FC, interrupting SF, interrupting FF, FF_DL '
@@ -180,7 +181,7 @@ class C06(PropBase):
         def fcdata(status):
             return ref.pad_frame(ref.tx_prefix(txh) + bytes([0x30 | status, bs, stmin]), 8, None, p.get('tx_padding'))
         out = []
-        recs = trace.records(lines_in, impl_out)
+        recs = trace.records(lines_in, impl_out, sc)
         nframe = -1
         inj_errs = []
         inj_tx = []
